@@ -353,6 +353,24 @@ def c05(v, h, op, res, k, prev):
                 h.report('C05', f'C05:cancelled-job-started:{op["op"]}', k, {'job': list(j)})
 
 
+def canceller_picks(v, h, op, res, k, prev):
+    """What the canceller's selection queries offer is completed as Cancelled / unscheduled by its loops without further checks:
+    they must offer only jobs that is_job_cancelled reports cancelled - never an always_run job (C05: always-run children run
+    regardless; C39: always-run jobs of a cancelled batch still run) and never a job outside a cancelled subtree whose parents all
+    succeeded (C07: siblings and ancestors are unaffected)."""
+    if op.get('op') != 'canceller_pick' or 'ok' not in res:
+        return
+    for b, jid in res['ok'].get('jobs', []):
+        j = v.jobs.get((b, jid))
+        if j is None:
+            continue
+        if j.always_run:
+            h.report('C05', f'C05:always-run-job-offered-to-canceller:{op.get("kind")}', k, list(j))
+            h.report('C39', f'C39:always-run-job-offered-to-canceller:{op.get("kind")}', k, list(j))
+        elif not v.job_cancelled(j):
+            h.report('C07', f'C07:job-that-is-not-cancelled-offered-to-canceller:{op.get("kind")}', k, list(j))
+
+
 def c06(v, h, op, res, k, prev):
     for (b, g), grp in v.groups.items():
         n, comp, _s, _f, _c = tallies(v, b, g)
@@ -602,6 +620,7 @@ def check_history(ops, ents, props=None):
         c03(v, h, op, res, k, prev)
         c04(v, h, op, res, k, prev)
         c05(v, h, op, res, k, prev)
+        canceller_picks(v, h, op, res, k, prev)
         c06(v, h, op, res, k, prev)
         c07(v, h, op, res, k, prev)
         c09(v, h, op, res, k, prev, seen)
